@@ -3,6 +3,7 @@ from __future__ import annotations
 
 import functools
 import itertools
+import random
 import warnings
 
 import build as B
@@ -140,7 +141,7 @@ class Prop:
     case_module = "CaseC06"
     case_vo = "theories/Cases/CaseC06.vo"
     run_fn = "run06"
-    post_variants = {"quick": 40, "thorough": 400}
+    post_variants = {"quick": 40, "thorough": 120}
     post_ops = ("move", "sort", "add")      # start nodes are named by allocation index: nothing may disappear
     shard = 8
     rule = ("clone / equal-data labelings of every shape with 2..5 (thorough 6) nodes: one object everywhere under distinct explicit ids, "
@@ -160,7 +161,7 @@ class Prop:
                    "the registry order read for the UNORDERED model input is tree._node_by_id.values(); only its multiset is compared",
                    "RuntimeWarning emitted for StopIteration signals is ignored (default warning filter, not 'error')"]
     manifest = dict(
-        text=("Machine-checked theorems (Coq 8.16, no axioms, 31 statements in coq/Properties/C06.v) about an executable model of "
+        text=("Machine-checked theorems (Coq 8.16, no axioms; every `Theorem` of coq/Properties/C06.v, counted by the runner) about an executable model of "
               "Node/Tree.iterator, Node/Tree.visit and call_traversal_cb.  For every tree, start node and add_self: each of the six ordered "
               "methods yields a permutation of the branch without repetition (UNORDERED/RANDOM: a permutation of the registry), add_self "
               "puts the start node first (last for post-order); the order of each method is characterised as a RELATION on node pairs "
@@ -172,7 +173,10 @@ class Prop:
               "skip sets and for arbitrary stateful callbacks; a stop signal or error at a call ends the traversal there: the calls "
               "are the prefix of the muted run up to and including that call and visit returns the carried value, for each of the 9 "
               "returned/raised stop shapes (StopTraversal, False, StopIteration; class or instance), all 16 raw shapes being normalised "
-              "as documented; for any callback whatsoever the calls are a duplicate-free subsequence of the iterator order.  Literal "
+              "as documented; for any callback whatsoever the calls are a duplicate-free subsequence of the iterator order.  Tree.visit "
+              "(the wrapper run by the check: system root, add_self=False) has the same statements against Tree.iterator: order, "
+              "skip, stop at the k-th call / at a node for every shape, returned value, arbitrary callbacks, and the root is never "
+              "handed to the callback.  Literal "
               "tables of the source (IterMethod values, the _iter_*/_visit_* handlers of Node, the revert/toggle flags of the level "
               "variants) are lifted on every run and must agree with the model (proof obligation).  The model is tied to /repo on every "
               "run by a correspondence check (vm_compute vs. the implementation on all forest shapes <=5 nodes (<=7 thorough), every "
@@ -183,7 +187,17 @@ class Prop:
               "generators/observation; node identity = allocation index.  The exact order of UNORDERED/RANDOM is not part of the property "
               "(compared as sorted multisets); random.shuffle is modelled as an arbitrary selection sequence.  Callbacks that mutate the "
               "tree during traversal are outside the model.  A callback returning any other value (True, 0, ...) makes visit raise "
-              "ValueError - modelled as it is (the docstring of call_traversal_cb says such values are ignored)."),
+              "ValueError - modelled as it is (the docstring of call_traversal_cb says such values are ignored).  Where the code is "
+              "narrower than the English statement the theorems follow the code and say so: visit() exists for pre-, post- and "
+              "level-order only (the other five methods raise NotImplementedError before any call: C06_visit_methods / "
+              "C06_tree_visit_methods); Node.iterator(UNORDERED / RANDOM_ORDER) raises NotImplementedError (only Tree.iterator has "
+              "them: C06_iterator_methods); a skip signal in post-order suppresses nothing (descendants were already called: "
+              "C06_post_order_ignores_skip).  Outside a pure value model and therefore checked by the harness oracle only, on every "
+              "case: traversals are read-only (child lists by identity, parent pointers, registry re-read after every call), two "
+              "live traversals of one tree are independent, memo pass-through, the RuntimeWarning, __iter__.  Input hypotheses "
+              "NoDup (ids f) and 'registry = node set' are checked per case (registry flag of run06 / reg_ok of the oracle; "
+              "C06_registry_ids_suffice bridges the id-level check to the node-level hypothesis); their preservation by mutators "
+              "is C01/C02's subject."),
         technique="Coq proof about an executable Gallina model + differential correspondence check (vm_compute) + Python oracle",
         design_ref="DESIGN.md section 6 (C06)",
     )
@@ -205,6 +219,10 @@ class Prop:
                     sk = [SKIPS[(ctr + 1) % 4], STOPS[(ctr + 5) % len(STOPS)]]
                 ctr += 1
                 sel = None
+                if quick and n == 5:
+                    # largest quick size: visit() from every second start node (alternating with the shape counter)
+                    idx = list(range(1, n + 1))
+                    sel = dict(istarts=[0] + idx, vstarts=[0] + [i for i in idx if i % 2 == ctr % 2], sigs=idx, counts=[0, 2, 4])
                 if n >= 7:
                     # largest exhaustive size: every start for iterator(), every third start (rotating with the
                     # shape counter) for visit(), every signal node, three call numbers
@@ -227,16 +245,16 @@ class Prop:
                         ("eqobj", [f"e:{i // 2}" for i in range(2 * n)],
                          B.shape_to_nodes(shape, lambda i, d, si: (2 * si + d % 2, None, "q%d" % i))),
                     ]
-                    if n == 5:          # the two position-based labelings alternate
+                    if n == 5 and not quick:   # the two position-based labelings alternate
                         del variants[1 + ctr % 2]
-                    elif n >= 6:        # thorough only: one of the three in rotation (+ the targeted one)
+                    elif n >= 5:        # largest size of the tier: one of the three in rotation (+ the targeted one)
                         variants = [variants[ctr % 3]]
                     tg = label_targeted(nodes)
                     if tg != nodes:
                         variants.append(("targeted", univ, tg))
                     for _nm, vuniv, vnodes in variants:
                         yield dict(typed=False, univ=vuniv, nodes=vnodes, sn=lsn, sk=lsk, sel=lsel)
-        nrand = 24 if quick else 60
+        nrand = 18 if quick else 45
         top = 60 if quick else 200
         for j in range(nrand):
             n = rng.randint(8, top if j % 3 == 0 else max(8, top // 3))
@@ -251,7 +269,7 @@ class Prop:
             elif j % 3 == 2:    # clones in the 'last child = data of the preceding branch' relation
                 nodes = label_targeted(nodes)
             idx = list(range(1, n + 1))
-            sel = dict(istarts=[0] + (idx if n <= 40 else sorted(rng.sample(idx, 12))),
+            sel = dict(istarts=[0] + (idx if n <= (14 if quick else 40) else sorted(rng.sample(idx, 12))),
                        vstarts=[0] + sorted(rng.sample(idx, 3)),
                        sigs=sorted(rng.sample(idx, 5)), counts=sorted(rng.sample(range(n), 3)))
             sn = [rng.choice(SKIPS), rng.choice(STOPS), rng.choice(ALL_SHAPES)]
@@ -301,14 +319,14 @@ class Prop:
         nat = lambda l: H.coq_list(f"{x}%nat" for x in l)  # noqa: E731
         coq = (f"({H.coq_forest(tree._root, U)}, {nat(reg)}, Sel {nat(istarts)} {nat(vstarts)} {nat(sorted(sigs))} {nat(counts)} "
                f"{H.coq_list(coq_raw(s) for s in sn)} {H.coq_list(coq_raw(s) for s in sk)})")
-        key = H.digest([desc["univ"], desc["nodes"], desc.get("sel"), desc["sn"], desc["sk"]])
+        key = H.digest([desc["univ"], desc["nodes"], desc.get("sel"), desc["sn"], desc["sk"], desc.get("post")])
         try:
-            return self._observe(desc, tree, nodes, n, istarts, vstarts, sigs, counts, sn, sk, stats, reg, reg_ok, coq, key)
+            return self._observe(desc, tree, U, nodes, n, istarts, vstarts, sigs, counts, sn, sk, stats, reg, reg_ok, coq, key)
         except _Broken as e:
             # the implementation corrupted the tree or ran away: no further observation is attempted
             return Case(desc=desc, coq_input=coq, impl_obs=[-9], oracle_fail=str(e), nontrivial=True, key=key, stats=stats)
 
-    def _observe(self, desc, tree, nodes, n, istarts, vstarts, sigs, counts, sn, sk, stats, reg, reg_ok, coq, key):
+    def _observe(self, desc, tree, U, nodes, n, istarts, vstarts, sigs, counts, sn, sk, stats, reg, reg_ok, coq, key):
         limit = 10 * (n + 1) + 10                     # no traversal of n nodes may yield / call more than this
         everyone = [tree._root] + nodes
         base_pre = [H.nid(x) for x in nodes]          # pre-order by pointers, taken before any traversal
@@ -342,7 +360,7 @@ class Prop:
             read_only(what)
             return r
 
-        side = dict(memo=None, warn=None, dunder_iter=None)   # behaviour outside the model, judged by the oracle only
+        side = dict(memo=None, warn=None, dunder_iter=None, live=None)   # behaviour outside the model, judged by the oracle only
         sentinel = []          # falsy on purpose: an empty collector is the typical memo argument
 
         def one_visit(call, trigger, shape, what="visit"):
@@ -424,9 +442,146 @@ class Prop:
             if bounded(iter(nd), "for n in node") != ob[0][0]:
                 side["dunder_iter"] = f"__iter__: `for n in node` differs from node.iterator() at {H.nid(nd)}"
         read_only("__iter__")
+
+        # ---- two live traversals of one tree are independent: an iterator that is only partly consumed when another
+        # traversal of the same tree is created / run yields, in the end, exactly what it yields when consumed in one go.
+        # (global `random` is seeded from the case so that a failure replays)
+        def live():
+            whole = sorted(base_pre)
+            random.seed(7919 * n + 31 * len(desc["univ"]) + len(str(desc["nodes"])))
+
+            def norm(mi, r):
+                return sorted(r) if mi >= 6 else r
+
+            base = {mi: norm(mi, bounded(tree.iterator(m), f"tree.iterator({MNAMES[mi]})")) for mi, m in enumerate(METHS)}
+            for mi in (6, 7):
+                if base[mi] != whole:
+                    return f"tree.iterator({MNAMES[mi]}) is not a permutation of the nodes: {base[mi]}"
+            splits = sorted({k for k in (1, n // 2, n - 1) if 0 < k < n})
+            for mi, m1 in enumerate(METHS):
+                for mj, m2 in enumerate(METHS):
+                    for k in splits:
+                        it1 = tree.iterator(m1)
+                        head = [H.nid(x) for x in itertools.islice(it1, k)]
+                        second = norm(mj, bounded(tree.iterator(m2), "second live iterator"))
+                        got = norm(mi, head + bounded(it1, "first live iterator"))
+                        if got != base[mi]:
+                            return (f"live traversals: tree.iterator({MNAMES[mi]}) consumed up to item {k}, then tree.iterator("
+                                    f"{MNAMES[mj]}) run, then the rest: {head}+... gives {got}, uninterrupted {base[mi]}")
+                        if second != base[mj]:
+                            return (f"live traversals: tree.iterator({MNAMES[mj]}) run while tree.iterator({MNAMES[mi]}) is "
+                                    f"half consumed gives {second}, alone {base[mj]}")
+            # the same below one start node (ordered methods, add_self)
+            starts = [x for x in nodes if x._children]
+            if starts:
+                nd = starts[stats["visits"] % len(starts)]
+                nb = {mi: bounded(nd.iterator(METHS[mi], add_self=True), "node iterator") for mi in range(6)}
+                for mi in range(6):
+                    for mj in range(6):
+                        it1 = nd.iterator(METHS[mi], add_self=True)
+                        head = [H.nid(x) for x in itertools.islice(it1, 1)]
+                        second = bounded(nd.iterator(METHS[mj], add_self=True), "second live iterator")
+                        got = head + bounded(it1, "first live iterator")
+                        if got != nb[mi] or second != nb[mj]:
+                            return (f"live traversals below node {H.nid(nd)}: {MNAMES[mi]} interrupted by {MNAMES[mj]}: {got} / {second}, "
+                                    f"uninterrupted {nb[mi]} / {nb[mj]}")
+            # a traversal started inside the callback of a visit; a visit run while an iterator is half consumed
+            vm = [(0, IterMethod.PRE_ORDER), (1, IterMethod.POST_ORDER), (2, IterMethod.LEVEL_ORDER)]
+            for vi, vmeth in vm:
+                for mj, m2 in enumerate(METHS):
+                    calls, inner = [], []
+
+                    def cb(node, memo, mj=mj, m2=m2, calls=calls, inner=inner):
+                        if len(calls) > limit:
+                            raise _Runaway()
+                        calls.append(H.nid(node))
+                        if len(calls) == max(1, n // 2):
+                            inner.append(norm(mj, bounded(tree.iterator(m2), "iterator inside a visit callback")))
+                            if mj < 3:
+                                c2 = []
+                                tree.visit(lambda nn, mm: c2.append(H.nid(nn)) if len(c2) <= limit else None, method=m2)
+                                inner.append(c2)
+
+                    try:
+                        tree.visit(cb, method=vmeth)
+                    except _Runaway:
+                        return f"live traversals: visit({MNAMES[vi]}) does not terminate when a traversal runs inside its callback"
+                    if n and (calls != base[vi] or any(r != base[mj] for r in inner)):
+                        return (f"live traversals: visit({MNAMES[vi]}) with tree.iterator/visit({MNAMES[mj]}) run inside the callback "
+                                f"of call {max(1, n // 2)}: calls {calls}, inner {inner}; expected {base[vi]} and {base[mj]}")
+                for mi, m1 in enumerate(METHS):
+                    if n < 2:
+                        continue
+                    it1 = tree.iterator(m1)
+                    head = [H.nid(x) for x in itertools.islice(it1, 1)]
+                    c2 = []
+                    tree.visit(lambda nn, mm: c2.append(H.nid(nn)) if len(c2) <= limit else None, method=vmeth)
+                    got = norm(mi, head + bounded(it1, "first live iterator"))
+                    if got != base[mi] or c2 != base[vi]:
+                        return (f"live traversals: tree.iterator({MNAMES[mi]}) interrupted by visit({MNAMES[vi]}): {got} / {c2}, "
+                                f"expected {base[mi]} / {base[vi]}")
+            return None
+
+        side["live"] = live()
+        read_only("interleaved traversals")
         obs = [t_it, t_vis, n_it, n_vis, reg_ok]
 
         fail = self.oracle(tree, nodes, istarts, vstarts, sigs, counts, sn, sk, obs, side)
+
+        # ---- query - MUTATE - query again on the SAME tree object (stale caches / indexes): after everything above was
+        # observed, the tree is restructured through the public API and every tree-level traversal is asked again and
+        # judged by the same pointer-based oracle on the new structure (twice, with a different history each time).
+        if fail is None and n >= 1:
+            prng = random.Random(1000003 * n + len(str(desc)))
+            for _round in range(2):
+                ops = B.random_post(prng, max(1, len(B.all_nodes(tree._root))), len(desc["univ"]) or 1, bool(desc.get("typed")),
+                                    allowed=getattr(self, "post_ops", None))
+                B.apply_post(tree, U, ops, bool(desc.get("typed")))
+                nodes2 = B.all_nodes(tree._root)
+                lim2 = 10 * (len(nodes2) + 1) + 10
+
+                def snap2():
+                    return ([(id(x._parent), tuple(id(c) for c in (x._children or ()))) for x in [tree._root] + nodes2],
+                            [id(x) for x in tree._node_by_id.values()])
+
+                before2 = snap2()
+
+                def again(it):
+                    try:
+                        r = [H.nid(x) for x in itertools.islice(it(), lim2 + 1)]
+                    except Exception as e:  # noqa: BLE001
+                        return [-1, H.err_class(e)]
+                    if len(r) > lim2:
+                        raise _Broken(f"after {ops}: a traversal yields more than {lim2} nodes from a tree of {len(nodes2)}")
+                    return r
+
+                def vis2(m):
+                    c2 = []
+
+                    def cb(node, memo):
+                        if len(c2) > lim2:
+                            raise _Runaway()
+                        c2.append(H.nid(node))
+
+                    try:
+                        return [c2, res_obs(tree.visit(cb, method=m))]
+                    except _Runaway:
+                        raise _Broken(f"after {ops}: visit does not terminate") from None
+                    except Exception as e:  # noqa: BLE001
+                        return [c2, [-1, H.err_class(e)]]
+
+                t_it2 = [sorted(r) if mi >= 6 and r[:1] != [-1] else r
+                         for mi, r in enumerate(again(lambda m=m: tree.iterator(m)) for m in METHS)]
+                t_vis2 = [[vis2(m), [], []] for m in METHS]
+                if snap2() != before2:
+                    fail = f"query - mutate {ops} - query again: read-only: the traversals modified the tree"
+                    break
+                reg2 = sorted(H.nid(x) for x in tree._node_by_id.values()) == sorted(H.nid(x) for x in nodes2)
+                f2 = self.oracle(tree, nodes2, [0], [0], set(), [], sn, sk, [t_it2, t_vis2, [], [], reg2],
+                                 dict(memo=None, warn=None, dunder_iter=None, live=None))
+                if f2:
+                    fail = f"query - mutate {ops} - query again: {f2}"
+                    break
         return Case(desc=desc, coq_input=coq, impl_obs=obs, oracle_fail=fail,
                     nontrivial=stats["skip_effective"] + stats["stop_effective"] > 0, key=key, stats=stats)
 
@@ -544,7 +699,7 @@ class Prop:
                             return f"visit {MNAMES[mi]}: {label} signal {r} at call {k}: got {o} expected {e}"
             return None
 
-        for k in ("memo", "warn", "dunder_iter"):
+        for k in ("memo", "warn", "dunder_iter", "live"):
             if side[k]:
                 return side[k]
         if not reg_ok:
